@@ -85,3 +85,4 @@ Print Assumptions C06_rejects_no_point.
 Print Assumptions C06_model_is_the_source.
 Print Assumptions C06_any_root_oracle.
 Print Assumptions C06_division_branch_dead.
+Print Assumptions C06_model_oracle_is_valid.
